@@ -36,6 +36,8 @@ plan('C15',
          # SHA-1: every length 0..260 (dense part continues to 1100 in thorough), sampled to 1 MiB / 8 MiB
          Job(H, 'sha1', 'asan', quick=261, thorough=1100, shards=(4, 8), params=dict(reps=6), tparams=dict(reps=30)),
          Job(H, 'sha1', 'plain', quick=261, thorough=1100, shards=(2, 8), params=dict(reps=6, dump=1), tparams=dict(reps=30)),
+         Job(H, 'codecs_mt', 'plain', quick=60, thorough=600, shards=(4, 8), params=dict(rounds=40)),
+         Job(H, 'codecs_mt', 'tsan', quick=8, thorough=60, shards=(4, 8), params=dict(rounds=10), batch=2, leakcheck=False),
          Job(H, 'sha1_big', 'asan', quick=24, thorough=128, shards=(8, 16), params=dict(maxlen=1 << 20), tparams=dict(maxlen=8 << 20)),
          Job(H, 'sha1_big', 'plain', quick=64, thorough=400, shards=(8, 16), params=dict(maxlen=1 << 20, dump=1), tparams=dict(maxlen=8 << 20)),
          # exhaustive short strings through decodeBase64 (stratum A: everything but the pad-heavy shape)
